@@ -255,6 +255,9 @@ func (w *World) MainLoop() {
 	if w.Cfg.Profile == "slash" {
 		w.installSlashHooks()
 	}
+	if w.Cfg.Profile == "rewards" {
+		w.installRewardsHooks()
+	}
 	w.setupLive()
 	for w.Step = 1; w.Step <= w.Cfg.Steps; w.Step++ {
 		if w.P.Halted {
